@@ -383,6 +383,144 @@ fn rel_cases(ctx: &mut GenCtx) {
     }
 }
 
+/// INVALID documents whose error messages embed long non-ASCII user data: the error path must build,
+/// convert and render its message without panicking (a returned error is fine, a panic is not).
+/// Payloads: an ASCII run of 0..3 characters, then 2-, 3-, 4-byte characters (or a mix) up to a byte length
+/// around the sizes at which messages are commonly cut (64, 128, 256, 512, 1024), so that a multi-byte character
+/// straddles every byte offset in turn.
+fn error_messages(ctx: &mut GenCtx) {
+    let fills: &[&str] = &["\u{E9}", "\u{20AC}", "\u{1D11E}", "a\u{E9}\u{20AC}\u{1D11E}", "\u{300}", "\u{FFFD}"];
+    let lens: &[usize] = if ctx.thorough { &[40, 70, 130, 200, 250, 260, 300, 520, 1030, 4100] } else { &[70, 130, 250, 300, 520, 1030] };
+    let mut payloads: Vec<String> = vec![];
+    for (fi, f) in fills.iter().enumerate() {
+        for (li, l) in lens.iter().enumerate() {
+            for a in 0..4usize {
+                if !ctx.thorough && (fi + li + a) % 2 == 1 && fi >= 3 {
+                    continue;
+                }
+                let mut p = "x".repeat(a);
+                while p.len() < *l {
+                    p.push_str(f);
+                }
+                payloads.push(p);
+            }
+        }
+    }
+    // JSON-LD: `{}` is replaced by the payload (a JSON string body: no quote, no backslash, no control character in it)
+    let jsonld: &[&str] = &[
+        // remote contexts (NoLoader: loading fails, the message names the IRI)
+        "{\"@context\":\"http://example.org/{}\",\"@id\":\"x:s\",\"http://x/p\":\"o\"}",
+        "{\"@context\":\"{}\",\"@id\":\"x:s\"}",
+        "{\"@context\":[{\"ex\":\"http://example.org/\"},\"http://example.org/c/{}#f\"],\"@id\":\"x:s\"}",
+        "{\"@context\":{\"@import\":\"http://example.org/{}\"},\"@id\":\"x:s\"}",
+        "{\"@context\":{\"t\":{\"@id\":\"x:t\",\"@context\":\"http://example.org/{}\"}},\"t\":\"o\"}",
+        // invalid context entries
+        "{\"@context\":{\"{}\":{\"@id\":\"@foo\"}},\"@id\":\"x:s\"}",
+        "{\"@context\":{\"t\":{\"@id\":\"{} {}\"}},\"t\":\"o\"}",
+        "{\"@context\":{\"t\":{\"@id\":\"x:t\",\"@type\":\"{} \"}},\"t\":\"o\"}",
+        "{\"@context\":{\"t\":{\"@id\":\"x:t\",\"@container\":\"{}\"}},\"t\":\"o\"}",
+        "{\"@context\":{\"t\":{\"@id\":\"x:t\",\"@container\":[\"@list\",\"{}\"]}},\"t\":\"o\"}",
+        "{\"@context\":{\"t\":{\"@reverse\":\"{} \",\"@id\":\"x:t\"}},\"t\":\"o\"}",
+        "{\"@context\":{\"t\":{\"@id\":\"x:t\",\"{}\":1}},\"t\":\"o\"}",
+        "{\"@context\":{\"t\":{\"@id\":\"x:t\",\"@nest\":\"{}\"}},\"t\":\"o\"}",
+        "{\"@context\":{\"t\":{\"@id\":\"x:t\",\"@language\":\"{}\"}},\"t\":\"o\"}",
+        "{\"@context\":{\"t\":{\"@id\":\"x:t\",\"@direction\":\"{}\"}},\"t\":\"o\"}",
+        "{\"@context\":{\"t\":{\"@id\":\"x:t\",\"@prefix\":\"{}\"}},\"t\":\"o\"}",
+        "{\"@context\":{\"{}:t\":\"x:u\"},\"@id\":\"x:s\"}",
+        "{\"@context\":{\"{}\":\"{}:\",\"t\":\"{}:t\"},\"t\":\"o\"}",
+        "{\"@context\":{\"a\":\"b\",\"b\":\"a\",\"{}\":\"a:{}\"},\"@id\":\"x:s\"}",
+        "{\"@context\":{\"@vocab\":\"{} {}\"},\"@id\":\"x:s\",\"p\":\"o\"}",
+        "{\"@context\":{\"@base\":\"{} {}\"},\"@id\":\"s\",\"http://x/p\":\"o\"}",
+        "{\"@context\":{\"@language\":\"{}\"},\"@id\":\"x:s\",\"http://x/p\":\"o\"}",
+        "{\"@context\":{\"@direction\":\"{}\"},\"@id\":\"x:s\",\"http://x/p\":\"o\"}",
+        "{\"@context\":{\"@version\":\"{}\"},\"@id\":\"x:s\"}",
+        "{\"@context\":{\"@propagate\":\"{}\"},\"@id\":\"x:s\"}",
+        "{\"@context\":{\"@protected\":\"{}\"},\"@id\":\"x:s\"}",
+        "{\"@context\":{\"@{}\":\"x:k\"},\"@id\":\"x:s\"}",
+        "{\"@context\":{\"k\":\"@{}\"},\"@id\":\"x:s\",\"k\":\"o\"}",
+        "{\"@context\":{\"@version\":1.1,\"p\":{\"@id\":\"x:p\",\"@protected\":true}},\"@id\":\"x:s\",\"x:q\":{\"@context\":{\"p\":\"x:{}\"},\"p\":1}}",
+        "{\"@context\":[null,\"{}\",7],\"@id\":\"x:s\"}",
+        "{\"@context\":{\"id\":\"@id\",\"{}\":\"@id\"},\"id\":\"x:a\",\"{}\":\"x:b\"}",
+        // invalid node / value objects
+        "{\"@id\":{\"{}\":1},\"http://x/p\":\"o\"}",
+        "{\"@id\":\"x:s\",\"@type\":{\"{}\":1}}",
+        "{\"@id\":\"x:s\",\"@type\":[\"x:T\",7,\"{}\"]}",
+        "{\"@id\":\"x:s\",\"http://x/p\":{\"@value\":\"a\",\"@type\":\"{} {}\"}}",
+        "{\"@id\":\"x:s\",\"http://x/p\":{\"@value\":\"a\",\"@type\":\"_:{}\"}}",
+        "{\"@id\":\"x:s\",\"http://x/p\":{\"@value\":\"a\",\"@language\":[\"{}\"]}}",
+        "{\"@id\":\"x:s\",\"http://x/p\":{\"@value\":\"a\",\"@direction\":\"{}\"}}",
+        "{\"@id\":\"x:s\",\"http://x/p\":{\"@value\":{\"{}\":1}}}",
+        "{\"@id\":\"x:s\",\"http://x/p\":{\"@value\":\"a\",\"{}\":1,\"http://x/{}\":2}}",
+        "{\"@id\":\"x:s\",\"http://x/p\":{\"@list\":[1],\"@id\":\"x:{}\"}}",
+        "{\"@id\":\"x:s\",\"http://x/p\":{\"@set\":[1],\"@index\":{\"{}\":1}}}",
+        "{\"@id\":\"x:s\",\"@reverse\":{\"http://x/{}\":\"{}\"}}",
+        "{\"@id\":\"x:s\",\"@reverse\":\"{}\"}",
+        "{\"@id\":\"x:s\",\"@included\":\"{}\"}",
+        "{\"@id\":\"x:s\",\"@nest\":\"{}\"}",
+        "{\"@id\":\"x:s\",\"@index\":{\"{}\":1}}",
+        "{\"@id\":\"x:s\",\"@graph\":\"{}\",\"@{}\":1}",
+        "{\"@id\":\"x:s\",\"{}\":1,\"{}\":2}",
+        "{\"@id\":\"x:s\",\"@id\":\"x:{}\"}",
+        "{\"@context\":{\"@version\":1.1,\"j\":{\"@id\":\"x:j\",\"@type\":\"@json\"}},\"@id\":\"x:s\",\"j\":{\"{}\":[\"{}\"]},\"@type\":\"{} \"}",
+        // not JSON at all, the offending text being the payload
+        "{\"@id\":\"x:s\",{}}",
+        "{\"@id\":\"x:s\",\"{}\" \"{}\"}",
+        "{}",
+        "[\"{}\",{\"@id\":\"{}\"}",
+    ];
+    let syns = ["jsonld", "jsonld@strict", "jsonld@v10", "jsonld@ctx", "jsonld@relaxed", "jsonld@base"];
+    let mut k = 0usize;
+    for t in jsonld {
+        for p in &payloads {
+            k += 1;
+            if !ctx.thorough && !ctx.rng.chance(1, 3) {
+                continue;
+            }
+            let d = t.replace("{}", p);
+            emit_doc(ctx, "jsonld", d.as_bytes(), None, "errmsg");
+            let syn = syns[1 + k % (syns.len() - 1)];
+            emit_doc(ctx, syn, d.as_bytes(), None, "errmsg");
+        }
+    }
+    // the other parsers: a long non-ASCII token right where the syntax error is
+    let rio: &[(&str, &str)] = &[
+        ("nt", "<http://example.org/{} {}> <x:p> <x:o> .\n"),
+        ("nt", "<x:s> <x:p> \"{}\\q{}\" .\n"),
+        ("nt", "<x:s> <x:p> \"a\"@{} .\n"),
+        ("nq", "<x:s> <x:p> <x:o> <{}|{}> .\n"),
+        ("nq", "_:{}\u{D7} <x:p> <x:o> .\n"),
+        ("ttl", "@prefix {}\u{D7}: <x:> .\n"),
+        ("ttl", "{}:a <x:p> <x:o> .\n"),
+        ("ttl", "@base <{} {}> .\n<a> <x:p> <x:o> .\n"),
+        ("ttl", "<x:s> <x:p> \"a\"^^{}:{} .\n"),
+        ("ttl", "<x:s> <x:p> {} .\n"),
+        ("trig", "<x:g> { <x:s> <x:p> \"\"\"{}\\q\"\"\" }\n"),
+        ("trig", "GRAPH {} { <x:s> <x:p> <x:o> }\n"),
+        ("gnq", "?{}\u{D7} <x:p> <x:o> .\n"),
+        ("gnq", "<x:s> <x:p> \"a\"^^<{} {}> .\n"),
+        ("gtrig", "<x:s> <x:p> ?{}\u{D7} .\n"),
+        ("gtrig", "@prefix p: <x:> .\np:{}\\q <x:p> <x:o> .\n"),
+        ("xml", "<rdf:RDF xmlns:rdf=\"http://www.w3.org/1999/02/22-rdf-syntax-ns#\"><rdf:Description rdf:about=\"{} {}\"/></rdf:RDF>"),
+        ("xml", "<rdf:RDF xmlns:rdf=\"http://www.w3.org/1999/02/22-rdf-syntax-ns#\"><rdf:Description rdf:nodeID=\"{} {}\"/></rdf:RDF>"),
+        ("xml", "<rdf:RDF xmlns:rdf=\"http://www.w3.org/1999/02/22-rdf-syntax-ns#\"><rdf:Description rdf:about=\"x:s\" xml:lang=\"{}\"><p xmlns=\"x:\">o</p></rdf:Description></rdf:RDF>"),
+        ("xml", "<rdf:RDF xmlns:rdf=\"http://www.w3.org/1999/02/22-rdf-syntax-ns#\"><{}:p>o</{}:p></rdf:RDF>"),
+        ("xml", "<rdf:RDF xmlns:rdf=\"http://www.w3.org/1999/02/22-rdf-syntax-ns#\"><rdf:Description rdf:{}=\"a\"/></rdf:RDF>"),
+        ("xml", "<rdf:RDF xmlns:rdf=\"http://www.w3.org/1999/02/22-rdf-syntax-ns#\"><rdf:Description rdf:about=\"x:s\"><p xmlns=\"x:\" rdf:parseType=\"{}\" rdf:resource=\"x:o\">&{};</p></rdf:Description></rdf:RDF>"),
+        ("xml", "<rdf:RDF xmlns:rdf=\"http://www.w3.org/1999/02/22-rdf-syntax-ns#\"><rdf:Description rdf:ID=\"{}\"/><rdf:Description rdf:ID=\"{}\"/></rdf:RDF>"),
+    ];
+    for (syn, t) in rio {
+        for (i, p) in payloads.iter().enumerate() {
+            let _ = i;
+            if !ctx.thorough && !ctx.rng.chance(1, 4) {
+                continue;
+            }
+            let d = t.replace("{}", p);
+            emit_doc(ctx, syn, d.as_bytes(), None, "errmsg");
+        }
+        k += 1;
+    }
+}
+
 fn mutate_docs(ctx: &mut GenCtx) {
     let per_pos = if ctx.thorough { 6 } else { 2 };
     for syn in run::SYNTAXES {
@@ -909,6 +1047,8 @@ pub fn generate(ctx: &mut GenCtx) {
     deep_and_long(ctx);
     forks.enter(ctx, 8);
     jsonld_options(ctx);
+    forks.enter(ctx, 10);
+    error_messages(ctx);
     forks.enter(ctx, 9);
     mutate_docs(ctx);
 }
